@@ -740,3 +740,17 @@ def from_codes(codes):
     t = z3.StringVal("")
     parts = [z3.StrFromCode(_zi(c)) for c in codes]
     return SBytes(z3.Concat(*parts) if len(parts) > 1 else parts[0]) if parts else SBytes(b"")
+
+
+def is_const(x, pyobj):
+    """identity test against a concrete Python singleton (works for SConst and native)."""
+    if isinstance(x, SConst):
+        return x.obj is pyobj
+    if isinstance(x, SV):
+        return False
+    return x is pyobj
+
+
+def seq_at(s, i):
+    """element i of a sequence (symbolic SSeq or native list)"""
+    return s[i]
